@@ -49,6 +49,7 @@ def im_core(ctx):
     else:
         ctx.missing("R05.1", "reader table / publication functions")
     c05.r05_5(ctx)
+    c05.r05_9(ctx)
     fns = c07.txn_fns(F)
     commit = [f for f in fns if f.name == "commit" and (f.raw.get("self_ty") or "").startswith(c07.TXN)]
     if len(commit) == 1:
